@@ -475,4 +475,6 @@ def run(cx, tier='quick'):
     rep.floor('HELP', 6)
     rep.assumptions += ['BTreeMap iterates in ascending key order', 'semantics of match / early return', 'LitInt::base10_parse / str::parse::<isize>']
     rep.not_decided += ['lawfulness of user-supplied comparison methods']
+    from .binders import check_binder_injectivity
+    check_binder_injectivity(cx, rep, ['::ord::', '::partial_ord::'])
     return rep
